@@ -1,5 +1,6 @@
-(* C15: the traversal with its two visited structures computes exactly the reachability closure of the spec,
-   provided no multiply-declared name is referred to from a file that declares it (shadow_free).
+(* C15: the traversal with its two visited structures computes exactly the reachability closure of the spec:
+   for the repaired lookup (fx = true, fix 53b8e25) without any guard; for the lookup before the fix
+   (fx = false) provided no multiply-declared name is referred to from a file that declares it (shadow_free).
 
    Soundness (every class it returns is reachable) needs no hypothesis.
    Completeness is a depth-first-search argument with a set Q of PENDING names: names that are already in strMap
@@ -10,7 +11,7 @@
      Inv Q s       every name of strMap is okname
    getClassTypeInfoList n returns with n settled and with every definition it added closed; at top level nothing
    is pending, so the final repeatTypeList is closed under "refers to" and contains the start names. *)
-From Coq Require Import List NArith ZArith Bool Lia Relations Operators_Properties.
+From Coq Require Import List NArith ZArith Bool Lia Relations Operators_Properties Permutation.
 From LH Require Import Base.Res Model.Classes Spec.ClassClosure Proofs.ClassesTotal.
 Import ListNotations.
 Local Open Scope N_scope.
@@ -53,6 +54,7 @@ Qed.
 
 (* ================================================================== soundness *)
 Section Sound.
+  Variable fx : bool.
   Variable tm : tmap.
 
   Definition from (n : name) (d : def) : Prop := exists m, reach tm n m /\ In d (sdefs tm m).
@@ -145,41 +147,53 @@ Section Sound.
       intros d' Hd'. apply in_app_or in Hd'. destruct Hd' as [Hd'|Hd']; [apply F1|apply F2]; exact Hd'.
   Qed.
 
-  Lemma visit_body_s V : SoundV V -> SoundV (visit_body tm V).
+  Lemma visit_body_s V : SoundV V -> SoundV (visit_body_v fx tm V).
   Proof.
-    intros HV n f l s o s' Ha Hn H. unfold visit_body in H.
+    intros HV n f l s o s' Ha Hn H. unfold visit_body_v in H.
     destruct (best tm f n l) as [b|] eqn:Hb.
-    - destruct (mem (d_id b) (s_defs s)).
-      + injection H as <- <-. split; [apply incl_refl|intros d []].
-      + apply best_in in Hb. destruct Hb as [Hin [_ Hnm]].
-        apply (one_def_s V n b HV Hn) with (s := add_def b s) (s' := s'); [|exact Ha|exact H].
-        apply global_defs_in. split; assumption.
+    - apply best_in in Hb. destruct Hb as [Hin [_ Hnm]].
+      assert (Hbg : In b (global_defs tm n)) by (apply global_defs_in; split; assumption).
+      destruct fx.
+      + apply (defs_s V n (b :: global_defs tm n) HV Hn) with (s := s); [|exact Ha|exact H].
+        intros d [<-|Hd]; assumption.
+      + destruct (mem (d_id b) (s_defs s)).
+        * injection H as <- <-. split; [apply incl_refl|intros d []].
+        * apply (one_def_s V n b HV Hn) with (s := add_def b s) (s' := s'); [exact Hbg|exact Ha|exact H].
     - apply (defs_s V n (global_defs tm n) HV Hn) with (s := s); [tauto|exact Ha|exact H].
   Qed.
 
-  Lemma visit_s fuel : SoundV (visit tm fuel).
+  Lemma visit_s fuel : SoundV (visit_v fx tm fuel).
   Proof.
     induction fuel as [|k IH]; simpl; [intros n f l s o s' _ _ H; discriminate|].
     apply visit_body_s. exact IH.
   Qed.
 
-  Theorem class_list_sound fuel t f l o :
-    class_list fuel tm t f l = Ok o -> forall d, In d o -> reachable_def tm t d.
+  Theorem class_list_v_sound fuel t f l o :
+    class_list_v fx fuel tm t f l = Ok o -> forall d, In d o -> reachable_def tm t d.
   Proof.
-    unfold class_list. intros H d Hd.
+    unfold class_list_v. intros H d Hd.
     apply rbind_ok in H. destruct H as [[o1 s1] [E1 H]]. simpl in H. injection H as <-.
     assert (Ha : In n_any (s_names st0)) by (left; reflexivity).
-    destruct (names_s (visit tm fuel) (normal_names t) f l (visit_s fuel) st0 o1 s1 Ha E1) as [_ F].
+    destruct (names_s (visit_v fx tm fuel) (normal_names t) f l (visit_s fuel) st0 o1 s1 Ha E1) as [_ F].
     destruct (F d Hd) as [p [Hp [m [Hr Hm]]]]. exists p, m. tauto.
   Qed.
 End Sound.
 
+(* the deployed variant *)
+Theorem class_list_sound tm fuel t f l o :
+  class_list fuel tm t f l = Ok o -> forall d, In d o -> reachable_def tm t d.
+Proof. exact (class_list_v_sound c15_split_fixed tm fuel t f l o). Qed.
+
 (* ================================================================== completeness *)
 Section Complete.
+  Variable fx : bool.
   Variable tm : tmap.
   Hypothesis Hwf : NoDup (map d_id tm).
+  (* a reference from file f to name n sees every declaration of n: always so after the repair; before it only
+     under the guard ref_ok *)
+  Definition okref (f : N) (n : name) : Prop := fx = true \/ ref_ok tm f n = true.
   (* second half of shadow_free *)
-  Hypothesis HG2 : forall d n, In d tm -> In n (refs_of d) -> ref_ok tm (d_file d) n = true.
+  Hypothesis HG2 : forall d n, In d tm -> In n (refs_of d) -> okref (d_file d) n.
 
   Definition marked (s : st) (d : def) : Prop := In (d_id d) (s_defs s).
   Definition settled (s : st) (n : name) : Prop :=
@@ -283,19 +297,19 @@ Section Complete.
 
   Definition GoodC (V : visitor) : Prop :=
     forall (Q : name -> Prop) n f l s o s',
-      ref_ok tm f n = true -> n <> n_any -> In n_any (s_names s) ->
+      okref f n -> n <> n_any -> In n_any (s_names s) ->
       Inv (fun m => Q m \/ m = n) s ->
       V n f l s = Ok (o, s') ->
       Seg Q s s' o /\ settled s' n.
 
   Lemma parents_c (Q : name -> Prop) V self ps f l :
-    GoodC V -> Q self -> (forall p, In p ps -> ref_ok tm f p = true) ->
+    GoodC V -> Q self -> (forall p, In p ps -> okref f p) ->
     forall s o s', In n_any (s_names s) -> Inv Q s -> parents_loop V self ps f l s = Ok (o, s') ->
     Seg Q s s' o /\ forall p, In p ps -> okname Q s' p.
   Proof.
     intros HV Hself. induction ps as [|p ps IH]; intros Hr s o s' Ha HI H; simpl in H.
     - injection H as <- <-. split; [apply Seg_refl; exact HI|intros p []].
-    - assert (Hr' : forall q, In q ps -> ref_ok tm f q = true) by (intros q Hq; apply Hr; right; exact Hq).
+    - assert (Hr' : forall q, In q ps -> okref f q) by (intros q Hq; apply Hr; right; exact Hq).
       destruct (mem p (s_names s) || (self =? p)) eqn:Hsk.
       + destruct (IH Hr' s o s' Ha HI H) as [S1 K1]. split; [exact S1|].
         intros q [<-|Hq]; [|apply K1; exact Hq].
@@ -315,13 +329,13 @@ Section Complete.
   Qed.
 
   Lemma names_c (Q : name -> Prop) V ns f l :
-    GoodC V -> (forall p, In p ns -> ref_ok tm f p = true) ->
+    GoodC V -> (forall p, In p ns -> okref f p) ->
     forall s o s', In n_any (s_names s) -> Inv Q s -> names_loop V ns f l s = Ok (o, s') ->
     Seg Q s s' o /\ forall p, In p ns -> okname Q s' p.
   Proof.
     intros HV. induction ns as [|p ns IH]; intros Hr s o s' Ha HI H; simpl in H.
     - injection H as <- <-. split; [apply Seg_refl; exact HI|intros p []].
-    - assert (Hr' : forall q, In q ns -> ref_ok tm f q = true) by (intros q Hq; apply Hr; right; exact Hq).
+    - assert (Hr' : forall q, In q ns -> okref f q) by (intros q Hq; apply Hr; right; exact Hq).
       destruct (mem p (s_names s)) eqn:Hm.
       + destruct (IH Hr' s o s' Ha HI H) as [S1 K1]. split; [exact S1|].
         intros q [<-|Hq]; [|apply K1; exact Hq].
@@ -348,13 +362,13 @@ Section Complete.
     intros HV Hq Hd s o s' Ha HI H. unfold one_def in H.
     destruct (d_kind d) as [ps fs|t] eqn:Hk.
     - apply rbind_ok in H. destruct H as [[o1 s1] [E1 H]]. simpl in H. injection H as <- <-.
-      assert (Hr : forall p, In p ps -> ref_ok tm (d_file d) p = true).
+      assert (Hr : forall p, In p ps -> okref (d_file d) p).
       { intros p Hp. apply HG2; [exact Hd|]. unfold refs_of. rewrite Hk. exact Hp. }
       destruct (parents_c Q V n ps (d_file d) (d_line d) HV Hq Hr s o1 s1 Ha HI E1) as [S1 K1].
       split; [eapply Seg_out; [|exact S1]; apply incl_tl, incl_refl|].
       split; [|intros _; left; reflexivity].
       intros m Hm. unfold refs_of in Hm. rewrite Hk in Hm. apply K1. exact Hm.
-    - assert (Hr : forall p, In p (normal_names t) -> ref_ok tm (d_file d) p = true).
+    - assert (Hr : forall p, In p (normal_names t) -> okref (d_file d) p).
       { intros p Hp. apply HG2; [exact Hd|]. unfold refs_of. rewrite Hk. exact Hp. }
       destruct (names_c Q V (normal_names t) (d_file d) (d_line d) HV Hr s o s' Ha HI H) as [S1 K1].
       split; [exact S1|]. split.
@@ -388,50 +402,57 @@ Section Complete.
         apply (proj2 (proj1 S2)). apply (proj2 (proj1 S1)). left. reflexivity.
   Qed.
 
-  Lemma visit_body_c V : GoodC V -> GoodC (visit_body tm V).
+  Lemma visit_body_c V : GoodC V -> GoodC (visit_body_v fx tm V).
   Proof.
-    intros HV Q n f l s o s' Hr Hn Ha HI H. unfold visit_body in H.
+    intros HV Q n f l s o s' Hr Hn Ha HI H. unfold visit_body_v in H.
     set (Q' := fun m => Q m \/ m = n) in *.
     assert (Hq' : Q' n) by (right; reflexivity).
+    assert (Hin : forall d, In d (global_defs tm n) -> In d tm) by (intros d Hd; apply global_defs_in in Hd; tauto).
     destruct (best tm f n l) as [b|] eqn:Hb.
-    - assert (Hall : forall d, In d (global_defs tm n) -> d = b) by (intros d Hd; eapply lookup_single; eassumption).
-      destruct (best_in tm f n l b Hb) as [Hbin _].
-      destruct (mem (d_id b) (s_defs s)) eqn:Hm.
-      + injection H as <- <-. apply mem_true_iff in Hm.
-        assert (Hs : settled s n) by (right; intros d Hd; rewrite (Hall d Hd); exact Hm).
-        split; [|exact Hs]. apply Seg_discharge with n; [|exact Hs]. apply Seg_refl. exact HI.
-      + assert (Mad : mono s (add_def b s)) by (split; [apply incl_refl|apply incl_tl, incl_refl]).
-        assert (HI1 : Inv Q' (add_def b s)).
-        { intros m Hmm. eapply okname_mono; [exact Mad|apply HI; exact Hmm]. }
-        destruct (one_def_c Q' V n b HV Hq' Hbin (add_def b s) o s' Ha HI1 H) as [S1 [Hc Ho]].
-        assert (S1' : Seg Q' s s' o) by (apply Seg_add_def with b; assumption).
-        assert (Hs : settled s' n).
-        { right. intros d Hd. rewrite (Hall d Hd). apply (proj2 (proj1 S1)). left. reflexivity. }
+    - destruct (best_in tm f n l b Hb) as [Hbin _].
+      destruct fx eqn:Hfx.
+      + (* repaired lookup: best first, then the whole workspace list *)
+        assert (Hin2 : forall d, In d (b :: global_defs tm n) -> In d tm) by (intros d [<-|Hd]; [exact Hbin|apply Hin; exact Hd]).
+        destruct (defs_c Q' V n (b :: global_defs tm n) HV Hq' Hin2 s o s' Ha HI H) as [S1 K1].
+        assert (Hs : settled s' n) by (right; intros d Hd; apply K1; right; exact Hd).
         split; [apply Seg_discharge with n; assumption|exact Hs].
-    - assert (Hin : forall d, In d (global_defs tm n) -> In d tm) by (intros d Hd; apply global_defs_in in Hd; tauto).
-      destruct (defs_c Q' V n (global_defs tm n) HV Hq' Hin s o s' Ha HI H) as [S1 K1].
+      + destruct Hr as [Hr|Hr]; [congruence|].
+        assert (Hall : forall d, In d (global_defs tm n) -> d = b) by (intros d Hd; eapply lookup_single; eassumption).
+        destruct (mem (d_id b) (s_defs s)) eqn:Hm.
+        * injection H as <- <-. apply mem_true_iff in Hm.
+          assert (Hs : settled s n) by (right; intros d Hd; rewrite (Hall d Hd); exact Hm).
+          split; [|exact Hs]. apply Seg_discharge with n; [|exact Hs]. apply Seg_refl. exact HI.
+        * assert (Mad : mono s (add_def b s)) by (split; [apply incl_refl|apply incl_tl, incl_refl]).
+          assert (HI1 : Inv Q' (add_def b s)).
+          { intros m Hmm. eapply okname_mono; [exact Mad|apply HI; exact Hmm]. }
+          destruct (one_def_c Q' V n b HV Hq' Hbin (add_def b s) o s' Ha HI1 H) as [S1 [Hc Ho]].
+          assert (S1' : Seg Q' s s' o) by (apply Seg_add_def with b; assumption).
+          assert (Hs : settled s' n).
+          { right. intros d Hd. rewrite (Hall d Hd). apply (proj2 (proj1 S1)). left. reflexivity. }
+          split; [apply Seg_discharge with n; assumption|exact Hs].
+    - destruct (defs_c Q' V n (global_defs tm n) HV Hq' Hin s o s' Ha HI H) as [S1 K1].
       assert (Hs : settled s' n) by (right; exact K1).
       split; [apply Seg_discharge with n; assumption|exact Hs].
   Qed.
 
-  Lemma visit_c fuel : GoodC (visit tm fuel).
+  Lemma visit_c fuel : GoodC (visit_v fx tm fuel).
   Proof.
     induction fuel as [|k IH]; simpl; [intros Q n f l s o s' _ _ _ _ H; discriminate|].
     apply visit_body_c. exact IH.
   Qed.
 
-  Theorem class_list_complete fuel t f l o :
-    (forall n, In n (normal_names t) -> ref_ok tm f n = true) ->
-    class_list fuel tm t f l = Ok o ->
+  Theorem class_list_v_complete fuel t f l o :
+    (forall n, In n (normal_names t) -> okref f n) ->
+    class_list_v fx fuel tm t f l = Ok o ->
     forall d, reachable_def tm t d -> is_class d -> In d o.
   Proof.
-    intros HG1 H d [n0 [n [Hn0 [Hr Hd]]]] Hk. unfold class_list in H.
+    intros HG1 H d [n0 [n [Hn0 [Hr Hd]]]] Hk. unfold class_list_v in H.
     apply rbind_ok in H. destruct H as [[o1 s1] [E1 H]]. simpl in H. injection H as <-.
     set (Q0 := fun _ : name => False).
     assert (Ha : In n_any (s_names st0)) by (left; reflexivity).
     assert (HI0 : Inv Q0 st0).
     { intros m [<-|[]]. left. left. reflexivity. }
-    destruct (names_c Q0 (visit tm fuel) (normal_names t) f l (visit_c fuel) HG1 st0 o1 s1 Ha HI0 E1) as [[M [I C]] K].
+    destruct (names_c Q0 (visit_v fx tm fuel) (normal_names t) f l (visit_c fuel) HG1 st0 o1 s1 Ha HI0 E1) as [[M [I C]] K].
     assert (Hset : forall m, reach tm n0 m -> settled s1 m).
     { intros m Hm. induction Hm using clos_refl_trans_ind_left.
       - destruct (K n0 Hn0) as [Hs|[]]. exact Hs.
@@ -447,6 +468,30 @@ Section Complete.
   Qed.
 End Complete.
 
+(* the repaired lookup: complete without any guard *)
+Theorem class_list_complete_fixed tm :
+  wf_tm tm -> forall fuel t f l o,
+    class_list_v true fuel tm t f l = Ok o ->
+    forall d, reachable_def tm t d -> is_class d -> In d o.
+Proof.
+  intros Hwf fuel t f l o. apply (class_list_v_complete true tm Hwf).
+  - intros d n _ _. left. reflexivity.
+  - intros n _. left. reflexivity.
+Qed.
+
+(* the lookup before the fix: complete under the guard (the round-1 theorem) *)
+Theorem class_list_complete_before tm :
+  wf_tm tm ->
+  (forall d n, In d tm -> In n (refs_of d) -> ref_ok tm (d_file d) n = true) ->
+  forall fuel t f l o, (forall n, In n (normal_names t) -> ref_ok tm f n = true) ->
+    class_list_v false fuel tm t f l = Ok o ->
+    forall d, reachable_def tm t d -> is_class d -> In d o.
+Proof.
+  intros Hwf G2 fuel t f l o G1. apply (class_list_v_complete false tm Hwf).
+  - intros d n Hd Hn. right. apply G2; assumption.
+  - intros n Hn. right. apply G1. exact Hn.
+Qed.
+
 (* ================================================================== the two directions together *)
 Lemma shadow_free_split tm t f :
   shadow_free tm t f = true ->
@@ -461,23 +506,97 @@ Lemma member_names_in o x :
   In x (member_names o) <-> exists d, In d o /\ In x (map f_name (class_fields d)).
 Proof. unfold member_names. apply in_flat_map. Qed.
 
-Theorem members_eq_closure tm t f l :
-  wf_tm tm -> shadow_free tm t f = true ->
-  forall x, In x (model_members tm t f l) <-> members_spec tm t x.
+Lemma members_spec_is_class tm t d x :
+  reachable_def tm t d -> In x (map f_name (class_fields d)) -> is_class d.
 Proof.
-  intros Hwf Hsf x. apply shadow_free_split in Hsf. destruct Hsf as [G1 G2].
-  unfold model_members. destruct (class_list_terminates tm t f l) as [o Ho]. rewrite Ho.
-  rewrite member_names_in. unfold members_spec. split.
-  - intros [d [Hd Hx]]. exists d. split; [|exact Hx]. eapply class_list_sound; eassumption.
-  - intros [d [Hd Hx]]. exists d. split; [|exact Hx].
-    eapply class_list_complete; try eassumption.
-    unfold class_fields in Hx. destruct (d_kind d) as [ps fs|t0] eqn:Hk; [exists ps, fs; exact Hk|destruct Hx].
+  intros _ Hx. unfold class_fields in Hx.
+  destruct (d_kind d) as [ps fs|t0] eqn:Hk; [exists ps, fs; exact Hk|destruct Hx].
 Qed.
 
-(* without the guard: never MORE than the closure *)
-Theorem members_sound tm t f l x : In x (model_members tm t f l) -> members_spec tm t x.
+(* both variants: members = closure as soon as every reference sees all declarations *)
+Theorem members_v_eq_closure fx tm t f l :
+  wf_tm tm -> (fx = true \/ shadow_free tm t f = true) ->
+  forall x, In x (model_members_v fx tm t f l) <-> members_spec tm t x.
 Proof.
-  unfold model_members. destruct (class_list_terminates tm t f l) as [o Ho]. rewrite Ho.
+  intros Hwf Hg x.
+  unfold model_members_v. destruct (class_list_v_terminates tm fx t f l) as [o Ho]. rewrite Ho.
+  rewrite member_names_in. unfold members_spec. split.
+  - intros [d [Hd Hx]]. exists d. split; [|exact Hx]. eapply class_list_v_sound; eassumption.
+  - intros [d [Hd Hx]]. exists d. split; [|exact Hx].
+    assert (Hk : is_class d) by (eapply members_spec_is_class; eassumption).
+    destruct Hg as [->|Hsf].
+    + eapply class_list_complete_fixed; eassumption.
+    + destruct fx; [eapply class_list_complete_fixed; eassumption|].
+      apply shadow_free_split in Hsf. destruct Hsf as [G1 G2].
+      eapply class_list_complete_before; eassumption.
+Qed.
+
+(* the code before the fix, under the guard (round 1) *)
+Theorem members_eq_closure_before tm t f l :
+  wf_tm tm -> shadow_free tm t f = true ->
+  forall x, In x (model_members_v false tm t f l) <-> members_spec tm t x.
+Proof. intros Hwf Hsf. apply members_v_eq_closure; [exact Hwf|right; exact Hsf]. Qed.
+
+(* the repaired code: the FULL statement, no guard *)
+Theorem members_full_fixed tm t f l :
+  wf_tm tm -> forall x, In x (model_members_v true tm t f l) <-> members_spec tm t x.
+Proof. intros Hwf. apply members_v_eq_closure; [exact Hwf|left; reflexivity]. Qed.
+
+(* the deployed model *)
+Theorem members_full tm t f l :
+  wf_tm tm -> forall x, In x (model_members tm t f l) <-> members_spec tm t x.
+Proof. exact (members_full_fixed tm t f l). Qed.
+
+Theorem class_list_complete tm :
+  wf_tm tm -> forall fuel t f l o,
+    class_list fuel tm t f l = Ok o ->
+    forall d, reachable_def tm t d -> is_class d -> In d o.
+Proof. exact (class_list_complete_fixed tm). Qed.
+
+(* without any guard, either variant: never MORE than the closure *)
+Theorem members_v_sound fx tm t f l x : In x (model_members_v fx tm t f l) -> members_spec tm t x.
+Proof.
+  unfold model_members_v. destruct (class_list_v_terminates tm fx t f l) as [o Ho]. rewrite Ho.
   rewrite member_names_in. intros [d [Hd Hx]]. exists d. split; [|exact Hx].
-  eapply class_list_sound; eassumption.
+  eapply class_list_v_sound; eassumption.
+Qed.
+
+Theorem members_sound tm t f l x : In x (model_members tm t f l) -> members_spec tm t x.
+Proof. exact (members_v_sound c15_split_fixed tm t f l x). Qed.
+
+(* ================================================================== consequences of the full statement *)
+Theorem members_place_free tm t f l f' l' :
+  wf_tm tm -> forall x, In x (model_members tm t f l) <-> In x (model_members tm t f' l').
+Proof.
+  intros Hwf x. rewrite (members_full tm t f l Hwf x), (members_full tm t f' l' Hwf x). reflexivity.
+Qed.
+
+Lemma normal_names_multi_in ts n :
+  In n (normal_names (TMulti ts)) <-> exists t, In t ts /\ In n (normal_names t).
+Proof.
+  induction ts as [|a r IH].
+  - cbn. split; [intros []|intros [t [[] _]]].
+  - change (normal_names (TMulti (a :: r))) with (normal_names a ++ normal_names (TMulti r)).
+    rewrite in_app_iff, IH. split.
+    + intros [H|[t [Ht Hn]]]; [exists a; split; [left; reflexivity|exact H]|exists t; split; [right; exact Ht|exact Hn]].
+    + intros [t [[<-|Ht] Hn]]; [left; exact Hn|right; exists t; split; assumption].
+Qed.
+
+Lemma members_spec_perm tm ts ts' x :
+  Permutation ts ts' -> members_spec tm (TMulti ts) x -> members_spec tm (TMulti ts') x.
+Proof.
+  intros Hp [d [[n0 [n [Hn0 [Hr Hd]]]] Hx]]. exists d. split; [|exact Hx].
+  exists n0, n. split; [|split; assumption].
+  apply normal_names_multi_in in Hn0. destruct Hn0 as [t [Ht Hn]].
+  apply normal_names_multi_in. exists t. split; [|exact Hn].
+  eapply Permutation_in; eassumption.
+Qed.
+
+Theorem union_order_free tm ts ts' f l :
+  wf_tm tm -> Permutation ts ts' ->
+  forall x, In x (model_members tm (TMulti ts) f l) <-> In x (model_members tm (TMulti ts') f l).
+Proof.
+  intros Hwf Hp x. rewrite (members_full tm _ f l Hwf x), (members_full tm _ f l Hwf x). split.
+  - apply members_spec_perm. exact Hp.
+  - apply members_spec_perm. apply Permutation_sym. exact Hp.
 Qed.
